@@ -129,6 +129,19 @@ func (db *Backend) ListBucket(name string, prefix *gofakes3.Prefix, page gofakes
 		if page.MaxKeys > 0 && cnt >= page.MaxKeys {
 			response.NextMarker = item.data.name
 			response.IsTruncated = iter.Next()
+
+			// If the page ends on a common prefix, the rest of the keys rolled up
+			// into it belong to this page too; otherwise the next page would
+			// report the same common prefix again.
+			for match.CommonPrefix && response.IsTruncated {
+				next := iter.Value().(*bucketObject)
+				var nextMatch gofakes3.PrefixMatch
+				if !prefix.Match(next.data.name, &nextMatch) || !nextMatch.CommonPrefix || nextMatch.MatchedPart != lastMatchedPart {
+					break
+				}
+				response.NextMarker = next.data.name
+				response.IsTruncated = iter.Next()
+			}
 			break
 		}
 	}
